@@ -6,7 +6,10 @@ Template extraction (never guesses: anything that does not match raises Template
 * UnionRegion.genericSampler          -> unionDimOp, unionWeight (size | one), unionCount (allRegs | largeRegs),
                                          unionAccept (invCount | always)
 * DifferenceRegion.genericSampler     -> diffRejectsInB
-* PointSetRegion.intersect.sampler    -> ballFilter (and that the ball is `o.circumcircle`)
+* PointSetRegion.intersect.sampler    -> ballFilter (and that the ball is `o.circumcircle`), ballFallback (the
+                                         `hasattr(o, "circumcircle")` guard: all points | AttributeError)
+* PolygonalRegion.uniformPointInner   -> polygonOuterFilter (candidates outside self.polygons are discarded and redrawn)
+* GridRegion._trueContainsPoint, PolygonalRegion._trueContainsPoint, PolylineRegion.containsPoint -> membership table
 * SectorRegion._makeCircumcircle      -> thr, k, op  (if c > thr: r = radius / (k*c) ...)
 * CircularRegion / RectangularRegion / MeshRegion circumcircle -> radius kinds
 * the z written into the returned Vector by the five planar uniformPointInner
@@ -173,7 +176,7 @@ def _union(tree):
     # containment_count = sum(int(reg._trueContainsPoint(point)) for reg in <scope>)
     #   or, equivalently, 1 + sum(... for reg in <scope> if reg is not target_reg)   (the drawn region counted by construction)
     cnt = [(k, v) for k, v in asg.items() if any(isinstance(c, ast.Call) and is_name(c.func, "sum") for c in ast.walk(v))]
-    accept, scope = "always", "allRegs"
+    accept, scope, selfc = "always", "allRegs", "byTest"
     rnd = [n for n in _walk(fn, ast.If) if any(_call_attr(c, "random") for c in ast.walk(n.test))]
     if rnd:
         expect(len(rnd) == 1 and len(cnt) == 1, "union: one rejection test and one containment count")
@@ -190,6 +193,7 @@ def _union(tree):
             expect(len(gifs) == 1 and isinstance(gifs[0], ast.Compare) and isinstance(gifs[0].ops[0], ast.IsNot)
                    and is_name(gifs[0].left, cg.generators[0].target.id) and len(tgt) == 1 and is_name(gifs[0].comparators[0], tgt[0]),
                    "union: 1 + sum(... if reg is not target_reg)")
+            selfc = "byConstruction"
         else:
             expect(not gifs, "union: containment generator has no filter")
         e = cg.elt
@@ -218,7 +222,9 @@ def _union(tree):
     ups = [n for n in _walk(fn, ast.Call) if _attr(n.func, "uniformPointInner")]
     expect(len(ups) == 1, "union: one uniformPointInner call")
     expect(isinstance(fn.body[-1], ast.Return), "union: returns the point")
-    return {"unionDimOp": dim_op, "unionWeight": weight, "unionCount": scope, "unionAccept": accept}
+    if not rnd:
+        selfc = "byConstruction"   # no count at all: nothing is asked of the drawn region
+    return {"unionDimOp": dim_op, "unionWeight": weight, "unionCount": scope, "unionAccept": accept, "unionSelf": selfc}
 
 
 def _difference(tree):
@@ -257,9 +263,35 @@ def _pointset(tree):
            "point-set sampler: center, radius = o.circumcircle")
     o = circ[0].value.value
     expect(isinstance(o, ast.Name), "point-set sampler: o")
+    # o must be the second operand of the intersection: o = intRegion.regions[1]
+    ov = asg.get(o.id)
+    expect(isinstance(ov, ast.Subscript) and _attr(ov.value, "regions") and isinstance(ov.slice, ast.Constant) and ov.slice.value == 1
+           and s.args.args and is_name(ov.value.value, s.args.args[0].arg), "point-set sampler: o = intRegion.regions[1]")
     cen, rad = [e.id for e in circ[0].targets[0].elts]
     q = [n for n in _walk(s, ast.Call) if _attr(n.func, "query_ball_point")]
-    expect(len(q) == 1 and is_name(q[0].args[0], cen) and is_name(q[0].args[1], rad), "point-set sampler: query_ball_point(center, radius)")
+    expect(len(q) == 1 and is_name(q[0].args[0], cen) and is_name(q[0].args[1], rad) and len(q[0].args) == 2 and not q[0].keywords,
+           "point-set sampler: query_ball_point(center, radius)")
+    expect(_attr(q[0].func.value, "kdTree") and is_name(q[0].func.value.value, "self"), "point-set sampler: self.kdTree.query_ball_point")
+    # the guard: if hasattr(o, "circumcircle"): <ball> else: indices = range(len(self.kdTree.data))
+    guards = [n for n in _walk(s, ast.If) if isinstance(n.test, ast.Call) and is_name(n.test.func, "hasattr")]
+    if guards:
+        expect(len(guards) == 1, "point-set sampler: one hasattr guard")
+        g = guards[0]
+        expect(len(g.test.args) == 2 and is_name(g.test.args[0], o.id) and isinstance(g.test.args[1], ast.Constant)
+               and g.test.args[1].value == "circumcircle", 'point-set sampler: hasattr(o, "circumcircle")')
+        expect(circ[0] in g.body and any(q[0] in ast.walk(n) for n in g.body), "point-set sampler: the ball query is under the guard")
+        expect(len(g.orelse) == 1 and isinstance(g.orelse[0], ast.Assign) and isinstance(g.orelse[0].value, ast.Call)
+               and is_name(g.orelse[0].value.func, "range") and len(g.orelse[0].value.args) == 1,
+               "point-set sampler: else: indices = range(len(...))")
+        ln = g.orelse[0].value.args[0]
+        expect(isinstance(ln, ast.Call) and is_name(ln.func, "len") and _attr(ln.args[0], "data") and _attr(ln.args[0].value, "kdTree"),
+               "point-set sampler: range(len(self.kdTree.data))")
+        qa = [n for n in g.body if isinstance(n, ast.Assign) and n.value is q[0]]
+        expect(len(qa) == 1 and is_name(qa[0].targets[0], g.orelse[0].targets[0].id), "point-set sampler: both branches assign the indices")
+        fallback = "allPoints"
+    else:
+        expect(circ[0] in s.body, "point-set sampler: unguarded circumcircle access at top level")
+        fallback = "attributeError"
     comps = [v for v in asg.values() if isinstance(v, ast.ListComp)]
     expect(len(comps) == 1, "point-set sampler: intersection list")
     ifs = comps[0].generators[0].ifs
@@ -273,7 +305,7 @@ def _pointset(tree):
         filt = "containsPoint" if ifs[0].func.attr == "containsPoint" else "trueContainsPoint"
     ch = [n for n in _walk(s, ast.Call) if _attr(n.func, "choice")]
     expect(len(ch) == 1, "point-set sampler: random.choice")
-    return {"ballFilter": filt}
+    return {"ballFilter": filt, "ballFallback": fallback}
 
 
 # ------------------------------------------------------------------------------------------ circumcircles
@@ -407,6 +439,123 @@ def _z_table(tree):
     return out
 
 
+
+# ------------------------------------------------------------------------------------------ polygon sampler, membership tests
+def _polygon_sampler(tree):
+    """PolygonalRegion.uniformPointInner: triangle by cumulative area, bounding-box loop on the triangle, and
+    (repaired shape) an outer loop that discards candidates outside self.polygons"""
+    fn = get_def(tree, "PolygonalRegion.uniformPointInner", REL)
+    body = body_nodoc(fn)
+    expect(len(body) >= 2 and isinstance(body[0], ast.Assign) and _self_attr(body[0].value, "_samplingData")
+           and isinstance(body[0].targets[0], ast.Tuple) and len(body[0].targets[0].elts) == 2,
+           "polygon sampler: trisAndBounds, cumulativeAreas = self._samplingData")
+    tb, cum = [e.id for e in body[0].targets[0].elts]
+    ch = [n for n in _walk(fn, ast.Call) if _attr(n.func, "choices")]
+    expect(len(ch) == 1 and is_name(ch[0].args[0], tb) and [k.arg for k in ch[0].keywords] == ["cum_weights"]
+           and is_name(ch[0].keywords[0].value, cum), "polygon sampler: random.choices(trisAndBounds, cum_weights=cumulativeAreas)")
+    whiles = _walk(fn, ast.While)
+    expect(all(isinstance(w.test, ast.Constant) and w.test.value is True for w in whiles), "polygon sampler: while True loops")
+    tests = [n for n in _walk(fn, ast.If) if _call_attr(n.test, "intersects_xy")]
+
+    def arg0(t):
+        return t.test.args[0]
+    tri_tests = [t for t in tests if isinstance(arg0(t), ast.Name)]
+    poly_tests = [t for t in tests if _self_attr(arg0(t), "polygons")]
+    expect(len(tri_tests) == 1 and len(tri_tests) + len(poly_tests) == len(tests), "polygon sampler: intersects_xy tests")
+    rets = _walk(fn, ast.Return)
+    expect(len(rets) == 1, "polygon sampler: one return")
+    if len(whiles) == 1 and not poly_tests:
+        # old shape: choose once, loop until inside the triangle, return
+        expect(isinstance(body[-1], ast.While) and isinstance(tri_tests[0].body[0], ast.Return) and not tri_tests[0].orelse,
+               "polygon sampler: return from the triangle test")
+        return False
+    expect(len(body) == 2 and len(whiles) == 2 and len(poly_tests) == 1 and isinstance(body[1], ast.While),
+           "polygon sampler: outer loop + polygon guard")
+    outer = body[1]
+    inner = [n for n in outer.body if isinstance(n, ast.While)]
+    expect(len(inner) == 1 and any(ch[0] in ast.walk(n) for n in outer.body if n is not inner[0]),
+           "polygon sampler: the triangle is drawn inside the outer loop")
+    expect(tri_tests[0] in inner[0].body and isinstance(tri_tests[0].body[0], ast.Break) and not tri_tests[0].orelse,
+           "polygon sampler: inner loop breaks on a point of the triangle")
+    pt = poly_tests[0]
+    expect(pt in outer.body and outer.body.index(pt) > outer.body.index(inner[0]) and isinstance(pt.body[0], ast.Return)
+           and not pt.orelse, "polygon sampler: if intersects_xy(self.polygons, x, y): return")
+    # same coordinates in both tests
+    expect([ast.dump(a) for a in pt.test.args[1:]] == [ast.dump(a) for a in tri_tests[0].test.args[1:]],
+           "polygon sampler: both tests look at the same candidate")
+    return True
+
+
+def _membership(tree):
+    out = {}
+    # GridRegion._trueContainsPoint
+    cls = get_def(tree, "GridRegion", REL)
+    expect([b.id for b in cls.bases if isinstance(b, ast.Name)] == ["PointSetRegion"], "GridRegion(PointSetRegion)")
+    m = [n for n in cls.body if isinstance(n, ast.FunctionDef) and n.name == "_trueContainsPoint"]
+    if not m:
+        out["grid"] = "cell"     # inherits Region._trueContainsPoint = self.containsPoint (cell based)
+    else:
+        b = body_nodoc(m[0])
+        arg = m[0].args.args[1].arg if len(m[0].args.args) == 2 else None
+        ok = (len(b) == 1 and isinstance(b[0], ast.Return) and _call_attr(b[0].value, "containsPoint")
+              and is_name(b[0].value.func.value, "PointSetRegion") and len(b[0].value.args) == 2
+              and is_name(b[0].value.args[0], "self") and is_name(b[0].value.args[1], arg))
+        cellish = (len(b) == 1 and isinstance(b[0], ast.Return) and _call_attr(b[0].value, "containsPoint")
+                   and is_name(b[0].value.func.value, "self"))
+        out["grid"] = "pointSet" if ok else "cell" if cellish else "other"
+    # PointSetRegion.containsPoint must be the k-d tree distance test with the tolerance
+    fn = get_def(tree, "PointSetRegion.containsPoint", REL)
+    b = body_nodoc(fn)
+    ok = (len(b) == 3 and isinstance(b[2], ast.Return) and isinstance(b[2].value, ast.Compare) and isinstance(b[2].value.ops[0], ast.LtE)
+          and _self_attr(b[2].value.comparators[0], "tolerance") and any(_attr(getattr(c, "func", None), "query") for c in ast.walk(b[1])))
+    if not ok and out["grid"] == "pointSet":
+        out["grid"] = "other"
+    # PolygonalRegion._trueContainsPoint
+    cls = get_def(tree, "PolygonalRegion", REL)
+    m = [n for n in cls.body if isinstance(n, ast.FunctionDef) and n.name == "_trueContainsPoint"]
+    if not m:
+        out["polygon"] = "footprintOnly"
+    else:
+        b = body_nodoc(m[0])
+        arg = m[0].args.args[1].arg
+        kind = "other"
+        if len(b) == 1 and isinstance(b[0], ast.Return):
+            v = b[0].value
+
+            def is_cp(n):
+                return _call_attr(n, "containsPoint") and is_name(n.func.value, "self") and len(n.args) == 1 and is_name(n.args[0], arg)
+
+            def is_zeq(n):
+                return (isinstance(n, ast.Compare) and len(n.ops) == 1 and isinstance(n.ops[0], ast.Eq)
+                        and {ast.dump(n.left), ast.dump(n.comparators[0])}
+                        == {ast.dump(ast.parse(f"{arg}.z", mode="eval").body), ast.dump(ast.parse("self.z", mode="eval").body)})
+            if is_cp(v):
+                kind = "footprintOnly"
+            elif isinstance(v, ast.BoolOp) and isinstance(v.op, ast.And) and len(v.values) == 2 \
+                    and ((is_zeq(v.values[0]) and is_cp(v.values[1])) or (is_zeq(v.values[1]) and is_cp(v.values[0]))):
+                kind = "zAndFootprint"
+        out["polygon"] = kind
+    # PolylineRegion.containsPoint
+    fn = get_def(tree, "PolylineRegion.containsPoint", REL)
+    b = body_nodoc(fn)
+    kind = "other"
+    if len(b) == 3 and isinstance(b[1], ast.If) and isinstance(b[2], ast.Return):
+        t = b[1].test
+        zguard = (isinstance(t, ast.Compare) and isinstance(t.ops[0], ast.NotEq) and _attr(t.left, "z")
+                  and isinstance(t.comparators[0], ast.Constant) and t.comparators[0].value == 0
+                  and isinstance(b[1].body[0], ast.Return) and isinstance(b[1].body[0].value, ast.Constant)
+                  and b[1].body[0].value.value is False and not b[1].orelse)
+        v = b[2].value
+        if zguard and isinstance(v, ast.Compare) and len(v.ops) == 1 and isinstance(v.ops[0], (ast.LtE, ast.Lt)) \
+                and _call_attr(v.left, "distance") and _self_attr(v.left.func.value, "lineString") and _self_attr(v.comparators[0], "tolerance"):
+            kind = "withinTolerance"
+        elif zguard and isinstance(v, ast.Call) and (_attr(v.func, "intersects_xy") or _attr(v.func, "intersects")) \
+                and any(_self_attr(n, "lineString") for n in ast.walk(v)):
+            kind = "exactIntersects"
+    out["polyline"] = kind
+    return out
+
+
 def extract():
     src, tree = load(REL)
     d = {}
@@ -417,6 +566,8 @@ def extract():
     d["sector"] = _sector_circ(tree)
     d["circ"] = _circ_table(tree)
     d["z"] = _z_table(tree)
+    d["polygonOuterFilter"] = _polygon_sampler(tree)
+    d["membership"] = _membership(tree)
     return d
 
 
@@ -428,16 +579,18 @@ def _rat(q):
 
 def to_lean(d):
     b = lambda x: "true" if x else "false"
-    s, c, z = d["sector"], d["circ"], d["z"]
+    s, c, z, m = d["sector"], d["circ"], d["z"], d["membership"]
     return f"""import ScenicModel.Model.RegionSampling
 namespace Scenic.Gen
 open Scenic.RegionSampling
 /-- shapes of the generic samplers in src/scenic/core/regions.py -/
 def samplerCfg : SamplerCfg :=
   {{ interDimOp := .{d['interDimOp']}, interChecksAll := {b(d['interChecksAll'])}, unionDimOp := .{d['unionDimOp']}, unionWeight := .{d['unionWeight']},
-    unionCount := .{d['unionCount']}, unionAccept := .{d['unionAccept']}, diffRejectsInB := {b(d['diffRejectsInB'])} }}
+    unionCount := .{d['unionCount']}, unionAccept := .{d['unionAccept']}, unionSelf := .{d['unionSelf']}, diffRejectsInB := {b(d['diffRejectsInB'])} }}
 /-- the membership test of the sampler installed by PointSetRegion.intersect -/
 def ballFilter : BallFilter := .{d['ballFilter']}
+/-- what that sampler does when the other region has no `circumcircle` -/
+def ballFallback : BallFallback := .{d['ballFallback']}
 /-- SectorRegion._makeCircumcircle -/
 def sectorCircCfg : SectorCircCfg := {{ thr := {_rat(s['thr'])}, k := {_rat(s['k'])}, op := .{s['op']} }}
 /-- circumcircle radius of CircularRegion / RectangularRegion / MeshRegion -/
@@ -445,5 +598,9 @@ def circTable : CircTable := {{ circle := .{c['circle']}, rect := .{c['rect']}, 
 /-- z written by each planar uniformPointInner -/
 def zTable : ZTable :=
   {{ rect := .{z['rect']}, circle := .{z['circle']}, sector := .{z['sector']}, polygon := .{z['polygon']}, polyline := .{z['polyline']} }}
+/-- PolygonalRegion.uniformPointInner discards candidates that lie outside self.polygons (overshooting triangulation) -/
+def polygonOuterFilter : Bool := {b(d['polygonOuterFilter'])}
+/-- the `_trueContainsPoint` of GridRegion / PolygonalRegion and the containsPoint of PolylineRegion -/
+def membership : MembershipTable := {{ grid := .{m['grid']}, polygon := .{m['polygon']}, polyline := .{m['polyline']} }}
 end Scenic.Gen
 """
